@@ -5,7 +5,7 @@
    and everything it calls), Model/C19Battery.v (the enumeration battery). *)
 From Coq Require Import String.
 From PV Require Import Base.Bytes Base.Outcome Base.Fmt.
-From PV Require Import Model.C19Base Model.C19Ctor Proofs.C19Proofs.
+From PV Require Import Model.C19Base Model.C19Ctor Model.C19Battery Proofs.C19Proofs Proofs.C19Battery.
 
 (* Part 1.  For EVERY byte string the constructor returns an object or raises ELFError /
    ELFParseError (both ELFError subclasses): no TypeError, OverflowError, ValueError... *)
@@ -34,6 +34,82 @@ Theorem C19_legacy_overflow :
 Proof. exact legacy_overflow. Qed.
 Print Assumptions C19_legacy_overflow.
 
+(* The same without any hypothesis: every list of integers taken mod 256 is a byte string. *)
+Theorem C19_construct_total_any : forall l : list Z,
+  match construct_model (map (fun z => (z mod 256)%Z) l) with
+  | Ok _ => True | Err EElf => True | Err EParse => True | Err _ => False
+  end.
+Proof. exact construct_total_any. Qed.
+Print Assumptions C19_construct_total_any.
+
+(* Part 2.  Model/C19Battery.v runs ELFFile(stream) and then the enumeration battery
+   (iter_sections with every section class, iter_segments incl. DynamicSegment's search through
+   the sections, symbol counts, dynamic tags, notes incl. GNU properties, ELF/GNU hash symbol
+   counts, version-needed/-defined chains with their auxiliaries) with every Python loop given the
+   fuel |file| + 1.  For EVERY byte string no loop exhausts it: each loop ends, by returning or by
+   raising, within |file| + 1 iterations, whatever counts, sizes, offsets and links the file holds. *)
+Theorem C19_battery_terminates : forall bs, all_bytes bs = true -> fst (battery_model bs) <> Err EFuel.
+Proof. exact battery_terminates. Qed.
+Print Assumptions C19_battery_terminates.
+
+Theorem C19_battery_terminates_any : forall l : list Z,
+  fst (battery_model (map (fun z => (z mod 256)%Z) l)) <> Err EFuel.
+Proof. exact battery_terminates_any. Qed.
+Print Assumptions C19_battery_terminates_any.
+
+(* False of the code before the repairs 690af1e and eedb89f (known_findings.d/C19.json): *)
+Theorem C19_battery_terminates_legacy_refuted :
+  exists bs, all_bytes bs = true /\ fst (battery_legacy bs) = Err EFuel.
+Proof. exact battery_terminates_legacy_refuted. Qed.
+Print Assumptions C19_battery_terminates_legacy_refuted.
+
+(* ... iter_segments with e_phoff = 0, e_phentsize = 0 and a count taken from section 0 (129 bytes) *)
+Theorem C19_legacy_segments_unbounded :
+  all_bytes witness_segments = true /\ fst (battery_legacy witness_segments) = Err EFuel.
+Proof. exact legacy_segments_unbounded. Qed.
+Print Assumptions C19_legacy_segments_unbounded.
+
+(* ... iter_versions on a chain whose last entry (vn_next = 0) is re-read sh_info times (291 bytes) *)
+Theorem C19_legacy_versions_unbounded :
+  all_bytes witness_versions = true /\ fst (battery_legacy witness_versions) = Err EFuel.
+Proof. exact legacy_versions_unbounded. Qed.
+Print Assumptions C19_legacy_versions_unbounded.
+
+(* The loops one by one (b is any battery context over a byte string, built by the constructor). *)
+Theorem C19_iter_sections_terminates : forall b, bgood b -> safe (collect_sections b) (fun _ => True).
+Proof. exact safe_collect_sections. Qed.
+Print Assumptions C19_iter_sections_terminates.
+
+Theorem C19_iter_segments_terminates : forall b, bgood b -> safe (collect_segments b) (fun _ => True).
+Proof. exact safe_collect_segments. Qed.
+Print Assumptions C19_iter_segments_terminates.
+
+Theorem C19_iter_tags_terminates : forall b offset lk loff,
+  bgood b -> safe (iter_tags b offset lk loff) (fun _ => True).
+Proof. exact safe_iter_tags. Qed.
+Print Assumptions C19_iter_tags_terminates.
+
+Theorem C19_iter_notes_terminates : forall b offset size,
+  bgood b -> safe (iter_notes b offset size) (fun _ => True).
+Proof. exact safe_iter_notes. Qed.
+Print Assumptions C19_iter_notes_terminates.
+
+Theorem C19_iter_versions_terminates : forall b s, bgood b -> safe (iter_versions b s) (fun _ => True).
+Proof. exact safe_iter_versions. Qed.
+Print Assumptions C19_iter_versions_terminates.
+
+Theorem C19_gnu_hash_walk_terminates : forall b s, bgood b -> safe (gnu_hash_nsyms b s) (fun _ => True).
+Proof. exact safe_gnu_hash_nsyms. Qed.
+Print Assumptions C19_gnu_hash_walk_terminates.
+
+(* Counters (ops = struct parses + string reads, what the harness measures on the real code):
+   enumerating the tags of one dynamic table costs at most 2 * (|file| + 1) operations. *)
+Theorem C19_iter_tags_linear : forall b offset lk loff c,
+  bgood b ->
+  (ops (snd (iter_tags b offset lk loff c)) <= ops c + 2 * (flen (bs_of b) + 1))%Z.
+Proof. exact iter_tags_linear_bytes. Qed.
+Print Assumptions C19_iter_tags_linear.
+
 (* non-vacuity: the model accepts a minimal well-formed image (so "always fail" is not
    what is being proved total), and the repaired outcomes on the two witnesses *)
 Example C19_minimal_image_accepted :
@@ -44,3 +120,19 @@ Proof. split; vm_compute; [reflexivity|discriminate]. Qed.
 Example C19_repaired_witnesses :
   construct_model witness_xindex = Err EElf /\ construct_model witness_seek = Err EParse.
 Proof. split; [exact repaired_xindex|exact repaired_seek]. Qed.
+
+(* non-vacuity of part 2: on the two witnesses the repaired model runs the battery to its end and
+   enumerates what is there (no segments; one version entry with one auxiliary) *)
+Example C19_repaired_segments :
+  match fst (battery_model witness_segments) with
+  | Ok o => r_sections o = ([K_Null], None) /\ r_segments o = ([], None)
+  | Err _ => False
+  end.
+Proof. exact repaired_segments. Qed.
+
+Example C19_repaired_versions :
+  match fst (battery_model witness_versions) with
+  | Ok o => r_sections o = ([K_Null; K_StrTab; K_VerNeed], None) /\ r_versions o = [Ok (1, 1)%Z]
+  | Err _ => False
+  end.
+Proof. exact repaired_versions. Qed.
